@@ -21,7 +21,7 @@ def mc(rep, wd):
         rep.count("mc_states_" + f, r.distinct)
 
 
-def run(pid, variants, per, mcfirst=True):
+def run(pid, variants, per, once=(), mcfirst=True):
     rep = common.Report(pid)
     rng = random.Random(common.seed())
     wd = common.workdir(pid)
@@ -30,7 +30,7 @@ def run(pid, variants, per, mcfirst=True):
     from concurrent.futures import ThreadPoolExecutor
     files = []
     with ThreadPoolExecutor(max_workers=4) as ex:
-        for fs in ex.map(lambda v: imgfmt.generate(rep, wd, v, per, common.seed()), variants):
+        for fs in ex.map(lambda v: imgfmt.generate(rep, wd, v, 1 if v[0] in once else per, common.seed()), variants):
             files += fs
     res = imgfmt.decode(files)
     cases = [imgfmt.case_of(i + 1, f, r) for i, (f, r) in enumerate(zip(files, res))]
@@ -79,7 +79,14 @@ def canaries(rep, cases, vds, wd):
 
 def main():
     thorough = common.tier() == "thorough"
-    rep, files, cases, vds, wd = run(PID, imgfmt.variants_uncompressed() + imgfmt.variants_cm3_raw(), 24 if thorough else 3)
+    sweep = imgfmt.variants_palette_sweep()
+    sweepnames = {v[0] for v in sweep}
+    rep, files, cases, vds, wd = run(PID, imgfmt.variants_uncompressed() + imgfmt.variants_cm3_raw() + sweep, 24 if thorough else 3, sweepnames)
+    codes = {(c["fmt"], c["cmp"], code) for f, c in zip(files, cases) if f["variant"] in sweepnames for code in c["pal"]}
+    rep.count("sweep_format_kind_code_triples", len(codes))
+    for fmt, cmp_ in sorted({(a, b) for a, b, _ in codes}):
+        if len({c for a, b, c in codes if (a, b) == (fmt, cmp_)}) != 64:
+            raise common.MachineryError("palette sweep of %s/%d does not hold all 64 codes" % (fmt, cmp_))
     canaries(rep, cases, vds, wd)
     return rep.finish({"exhaustive": False, "formats": "HRS, MGE raw, VEF raw 0/1/3, MAX x 9 modes, ART, PIX, CM3 raw lines 1/2 pages with/without pattern block"})
 
